@@ -37,3 +37,11 @@ func VerifC13ParseDigest(dir, s string) (sum [32]byte, file string, err error) {
 
 // VerifC13GetExistingName calls the real, unexported getExistingName (legacy case-insensitive lookup).
 func VerifC13GetExistingName(n model.Name) (model.Name, error) { return getExistingName(n) }
+
+type VerifC13HOp = blob.VerifC13HOp
+type VerifC13HObs = blob.VerifC13HObs
+
+// VerifC13History runs a history on one real blob.DiskCache (see the blob overlay).
+func VerifC13History(dir string, ops []VerifC13HOp) ([]VerifC13HObs, error) {
+	return blob.VerifC13History(dir, ops)
+}
